@@ -424,6 +424,24 @@ class Spec(pipeprops.PropSpec):
             for j in idxs:
                 k = kls[(i + j) % len(kls)]
                 cases.append(case_of(ts, cfg_of(j, k), {"stream": ["sc", "sc", "sc", "sc", "general"][stream], "i": i}))
+        # documents that state the class membership of ONE instance twice (concatenated dumps, the same statement in two
+        # files): the graph is the same, so every instance must still conform; only classes with another instance, so
+        # that the repeated statement does not become an exact cardinality of the whole class (C10-F7's root cause)
+        for i in range(3000 if tier == "thorough" else 120):
+            r = random.Random(rnd.getrandbits(48))
+            ts = gen_sc(r) if i % 2 else pipe.gen_graph(r, general=True)
+            typing_ts = [t for t in ts if t[1] == pipe.RDF_TYPE and t[2][0] == "I"]
+            by_class = {}
+            for t in typing_ts:
+                by_class.setdefault(t[2], []).append(t)
+            cands = [t for c, l in by_class.items() if len({x[0] for x in l}) >= 2 for t in l]
+            if not cands:
+                continue
+            t = r.choice(cands)
+            ts = list(ts)
+            ts.insert(r.randint(0, len(ts)), t)
+            j = r.randrange(16)
+            cases.append(case_of(ts, cfg_of(j, True), {"stream": "repeated-typing", "i": i}))
         if tier == "thorough":
             for name, ts in exhaustive_graphs():
                 for j in range(16):
@@ -438,8 +456,19 @@ class Spec(pipeprops.PropSpec):
         doc = pipe.canon(impl[0][1])
         if doc["unparsed"]:
             return [(None, "unparsed output line %r" % doc["unparsed"][0])], 0
-        inst, rep = path_report(ts, cfg)
+        # conformance is judged on the GRAPH the document denotes (a set of triples): a repeated statement is one
+        # triple; only the strict-domain test looks at the document (it excludes repeated statements, as Coq's does)
         in_dom = strict_dom(ts, cfg)
+        # nodes whose class membership the DOCUMENT states twice and that are the value of some statement: the
+        # profiler counts the reference to their class once per statement of membership (finding C03-F4)
+        seen_t, twice = set(), set()
+        for t in ts:
+            if t[1] == cfg["tau"]:
+                (twice if t in seen_t else seen_t).add(t)
+        dup_values = {t[0] for t in twice} & ({o for (_, p_, o) in ts if o[0] != "L" and p_ != cfg["tau"]} |
+                                              {s_ for (s_, p_, _) in ts if p_ != cfg["tau"]})     # value, or (inverse) subject
+        ts = list(dict.fromkeys(ts))
+        inst, rep = path_report(ts, cfg)
         kinds = node_kinds(ts)
         by_label = {sh["label"]: sh for sh in doc["shapes"]}
         typing = [(kinds[i], i, pipespec.shape_label(c, cfg["shapes_ns"])) for i, cs in inst.items() for c in cs]
@@ -449,10 +478,13 @@ class Spec(pipeprops.PropSpec):
         def attribute(cls, d, p, label, desc, kind, card=None, n=0):
             rc = None if in_dom else root_cause(ts, cfg, inst, rep, cls, d, p,
                                                 by_label.get(label, {"constraints": []}), kind, card, n)
+            if rc is None and not in_dom and kind == "card" and dup_values:
+                rc = "rc_repeated_typing_of_value"
             fails.append((rc, desc))
 
         # (1) the extracted validator on every (instance, shape) pair
         if cfg["all_instances_are_compliant_mode"]:
+            # the validator judges the GRAPH (a set): a repeated statement of the document is one triple
             out = pipeprops._mb().call("c03_validate", validator_table(doc, ts, typing))
             if out[0][0] != "valid" or len(out) != len(typing) + 1:
                 raise RuntimeError("c03_validate answered %r" % (out[:1],))
